@@ -11,6 +11,7 @@ import (
 	abci "github.com/cometbft/cometbft/abci/types"
 	sdk "github.com/cosmos/cosmos-sdk/types"
 	authtypes "github.com/cosmos/cosmos-sdk/x/auth/types"
+	banktypes "github.com/cosmos/cosmos-sdk/x/bank/types"
 	minttypes "github.com/cosmos/cosmos-sdk/x/mint/types"
 	"github.com/ethereum/go-ethereum/common"
 	"github.com/ethereum/go-ethereum/core"
@@ -126,6 +127,8 @@ type genTx struct {
 	cosmos  bool
 	replay  bool
 	gb, rc  uint64 // refund hook: gas used before refund, refund counter
+	cosFee  *big.Int
+	cosGas  uint64
 }
 
 // records of the verif-tag refund hook, in execution order: {gasUsedBeforeRefund, counter, applied, remaining}
@@ -260,6 +263,9 @@ func runBlocks(t *testing.T, f *blockFixture, rng *hx.Rng, p *hx.Proto, nTx int)
 				if v, ok := o.delta[c.feeCollector()]; ok {
 					dC = v
 				}
+				if cl == "cerr" && uint64(o.gasUsed) != g.ethTx.Gas() {
+					p.Oracle("consume-all-gas", "tx %d (%s): failed outside EVM execution but consensus gas used is %d, gas limit %d", i, g.kind, o.gasUsed, g.ethTx.Gas())
+				}
 				if new(big.Int).Sub(o.minted, o.burnt).Sign() > 0 {
 					p.Oracle("supply-created", "tx %d (%s, %s): minted %s > burnt %s", i, g.kind, cl, o.minted, o.burnt)
 				}
@@ -289,6 +295,21 @@ func runBlocks(t *testing.T, f *blockFixture, rng *hx.Rng, p *hx.Proto, nTx int)
 			if g.cosmos {
 				if v, ok := o.delta[c.feeCollector()]; ok && v.Sign() > 0 {
 					f.cosmosAdmitted[g.sender]++
+					// admission rule (C09): nothing priced below the base fee is ever executed
+					if g.cosFee != nil && g.cosFee.Cmp(new(big.Int).Mul(baseFee, new(big.Int).SetUint64(g.cosGas))) < 0 {
+						p.Oracle("admission-below-basefee", "Cosmos tx admitted with fee %s for gas %d: price below the base fee %s", g.cosFee, g.cosGas, baseFee)
+					}
+				}
+			} else if o.hasEthEv && g.ethTx != nil {
+				ep := g.ethTx.GasPrice()
+				if g.ethTx.Type() == 2 {
+					ep = new(big.Int).Add(g.ethTx.GasTipCap(), baseFee)
+					if ep.Cmp(g.ethTx.GasFeeCap()) > 0 {
+						ep = g.ethTx.GasFeeCap()
+					}
+				}
+				if ep.Cmp(baseFee) < 0 {
+					p.Oracle("admission-below-basefee", "Ethereum tx admitted with effective price %s below the base fee %s", ep, baseFee)
 				}
 			}
 			op, obs := f.lines(g, o, ws)
@@ -489,6 +510,12 @@ func (f *blockFixture) genTx(rng *hx.Rng, baseFee *big.Int, ws []*itutiltypes.Te
 		a.value = new(big.Int).Mul(big.NewInt(1_000_000), big.NewInt(1_000_000_000_000_000_000))
 		a.gas = 21000
 		g.kind = "value-too-high"
+		if rng.Chance(2, 5) { // the same for a contract creation (evm.Create must not be reached: the nonce is consumed by the ante handler only)
+			a.to = nil
+			a.data = initCode(codeSink)
+			a.gas = 120_000
+			g.kind = "create-value-too-high"
+		}
 	case kind < 81: // panic inside the handler: value to a block-listed module account
 		to := common.BytesToAddress(authtypes.NewModuleAddress(authtypes.FeeCollectorName))
 		a.to = &to
@@ -556,11 +583,26 @@ func (f *blockFixture) genTx(rng *hx.Rng, baseFee *big.Int, ws []*itutiltypes.Te
 		gp := new(big.Int).Add(baseFee, big.NewInt(int64(rng.Intn(100))))
 		gl := uint64(150_000)
 		amt := int64(1 + rng.Intn(100))
-		g.bytes = c.buildBankSend(from, ws[wi].GetCosmosAddress(), amt, f.nonces[si], gl, gp)
-		g.cosmos = true
-		g.toW = wi
+		fee := new(big.Int).Mul(gp, new(big.Int).SetUint64(gl))
 		g.kind = "cosmos-send"
-		g.opline = fmt.Sprintf("cos s=%d gl=%d fee=%s val=%d to=%d nonce=%d", si, gl, new(big.Int).Mul(gp, new(big.Int).SetUint64(gl)), amt, wi, f.nonces[si])
+		switch rng.Intn(4) {
+		case 0: // a fee that is not a multiple of the gas: price just below / at the base fee after integer division
+			fee = new(big.Int).Mul(baseFee, new(big.Int).SetUint64(gl))
+			fee.Sub(fee, big.NewInt(int64(rng.Intn(int(gl)))))
+			g.kind = "cosmos-send-frac-below"
+		case 1:
+			fee.Add(fee, big.NewInt(int64(rng.Intn(int(gl)))))
+			g.kind = "cosmos-send-frac-above"
+		}
+		if fee.Sign() <= 0 {
+			fee = big.NewInt(1)
+		}
+		g.bytes = c.buildCosmosTxFee(from, []sdk.Msg{&banktypes.MsgSend{FromAddress: from.GetCosmosAddress().String(), ToAddress: ws[wi].GetCosmosAddress().String(),
+			Amount: sdk.NewCoins(sdk.NewInt64Coin(c.evmDenom, amt))}}, f.nonces[si], gl, fee)
+		g.cosmos = true
+		g.cosFee, g.cosGas = fee, gl
+		g.toW = wi
+		g.opline = fmt.Sprintf("cos s=%d gl=%d fee=%s val=%d to=%d nonce=%d", si, gl, fee, amt, wi, f.nonces[si])
 		f.nonces[si]++
 		return g
 	}
